@@ -283,3 +283,21 @@ def backward_slice(body, start_ops):
             for a in d["args"]:
                 push_op(a)
     return locs, consts, calls, places
+
+
+def chase_fields(ch, o, limit=12):
+    """like Chaser.root, but when the root is a tuple/struct aggregate and the remaining projection selects a field, continue with
+    that field's operand (format_args! passes its arguments through a tuple of references)"""
+    cur = o
+    for _ in range(limit):
+        root, proj, trail = ch.root(cur, through_calls=False)
+        d = ch.single_def(root)
+        fs = [e for e in proj if e["k"] == "field"]
+        if d and d[0] == "stmt" and d[2]["k"] == "agg" and fs and fs[0]["i"] < len(d[2]["ops"]):
+            nxt = d[2]["ops"][fs[0]["i"]]
+            if "const" in nxt:
+                return None, [], nxt
+            cur = nxt
+            continue
+        return root, proj, None
+    return None, [], None
